@@ -28,7 +28,7 @@ pub fn plan(prop: &str) -> Vec<PlanEntry> {
         "C07" => vec![p("chain-stack", 1)],
         "C08" => vec![p("rc-cells", 4), p("dir-c", 2), p("client", 1)],
         "C09" => vec![p("rc-wcells", 2), p("dir-w", 2)],
-        "C10" => vec![p("rc-bulk", 1)],
+        "C10" => vec![p("rc-bulk", 5), p("dir-b", 1)],
         "C12" => vec![p("agesweep", 4), p("rc-mixed", 2), p("rc-bulk", 1), p("dir-t6", 2), p("dir-t9", 1)],
         "C13" => vec![p("ebr", 3), p("ebr-churn", 2), p("ebr-longcs", 3), p("ebr-private", 1), p("rc-mixed", 1), p("dir-t9", 1)],
         "C14" => vec![p("ebr", 2), p("ebr-churn", 3), p("ebr-longcs", 2), p("dir-t12", 2), p("guards", 1), p("rc-mixed", 1), p("rc-bulk", 1), p("dir-t6", 1)],
